@@ -1037,6 +1037,28 @@ def C17_range_bounds_family():
     return True, f"{n} Range graphs consistent with numpy.arange"
 
 
+def D26_inherited_patch_not_left_behind():
+    """C13: after a conversion no library class owns an attribute it merely inherited before (apply_patches restored an
+    inherited attribute with setattr while the parent class was itself patched: the subclass kept the parent's substitute)"""
+    import flax.linen as nn
+    from flax import nnx
+    jax, jnp = _jax()
+    import jax2onnx
+    import jax2onnx.plugins.plugin_system as ps
+    ps.import_all_plugins() if hasattr(ps, "import_all_plugins") else None
+    watched = [nn.MultiHeadAttention, nn.ConvLocal, nn.MultiHeadDotProductAttention, nn.Conv, nn.Dense, nnx.Linear, nnx.Conv, nnx.MultiHeadAttention]
+
+    def snap():
+        return {c.__module__ + "." + c.__qualname__: ("__call__" in vars(c), c.__call__) for c in watched}
+    before = snap()
+    jax2onnx.to_onnx(lambda x: jnp.tanh(x) * 2.0, [(2, 3)], model_name="d26")
+    after = snap()
+    for k in before:
+        if before[k][0] != after[k][0] or before[k][1] is not after[k][1]:
+            return False, f"{k}.__call__: own attribute {before[k][0]} -> {after[k][0]}, resolves to {getattr(after[k][1], '__qualname__', after[k][1])} after the conversion"
+    return True, "no watched class owns or resolves __call__ differently after a conversion"
+
+
 ALL = {
     "C18_nan_vs_finite": C18_nan_vs_finite, "C18_inf_vs_finite": C18_inf_vs_finite, "C18_shape_mismatch": C18_shape_mismatch,
     "C18_count_mismatch": C18_count_mismatch, "C18_beyond_tolerance": C18_beyond_tolerance,
@@ -1044,6 +1066,7 @@ ALL = {
     "C13_apply_patches_restores": C13_apply_patches_restores,
     "C13_x64_flag_restored": C13_x64_flag_restored,
     "D17": D17_inherited_call_restored,
+    "D26": D26_inherited_patch_not_left_behind,
     "C13_rebinding_between_conversions": C13_rebinding_between_conversions,
     "D1": D1_max_nonscalar_side_operand,
     "D2": D2_reshape_max_nonscalar,
